@@ -57,6 +57,8 @@ type target struct {
 	// body mode, `for` loops: the loop becomes Base.GoInt.while_fuel with LoopFuel iterations (default 64);
 	// OnFuel is the Coq term returned when the fuel runs out (required when the slice contains a loop; choose
 	// a value the function cannot return, so that a theorem about the result excludes exhaustion).
+	// calls to other translated functions: Go function name -> generated definition and its result type
+	Calls    map[string]envEntry `json:"calls"`
 	LoopFuel int    `json:"loop_fuel"`
 	OnFuel   string `json:"on_fuel"`
 }
@@ -121,7 +123,7 @@ type tr struct {
 
 func isInt(ty string) bool {
 	switch ty {
-	case "int64", "int", "dur", "uint64", "uint", "untyped", "time":
+	case "int64", "int", "dur", "uint64", "uint", "untyped", "time", "byte":
 		return true
 	}
 	return false
@@ -370,10 +372,21 @@ func (x *tr) binary(n *ast.BinaryExpr) (string, string) {
 			}
 			abort(n, "untyped constant division")
 		}
-		if ty == "time" || !isInt(ty) {
+		if ty == "time" || ty == "byte" || !isInt(ty) {
 			abort(n, "arithmetic on %s", ty)
 		}
 		return "(" + arith(n.Op, ty) + " " + paren(a) + " " + paren(b) + ")", ty
+	case token.AND, token.OR:
+		a, ta, b, tb := x.operands(n.X, n.Y)
+		ty := unify(n, ta, tb)
+		if !isInt(ty) || ty == "time" {
+			abort(n, "bitwise operator on %s", ty)
+		}
+		f := "Z.land"
+		if n.Op == token.OR {
+			f = "Z.lor"
+		}
+		return "(" + f + " " + paren(a) + " " + paren(b) + ")", ty
 	case token.SHL, token.SHR:
 		a, ta := x.expr(n.X)
 		b, _ := x.expr(n.Y)
@@ -395,10 +408,37 @@ func (x *tr) call(n *ast.CallExpr) (string, string) {
 	fn := src(n.Fun)
 	// conversions
 	conv := map[string]string{"int64": "int64", "int": "int", "uint64": "uint64", "uint": "uint", "time.Duration": "dur"}
+	if (fn == "byte" || fn == "uint8") && len(n.Args) == 1 {
+		// conversion to an 8-bit unsigned value keeps the low octet (two's complement for negative operands)
+		s, from := x.expr(n.Args[0])
+		if !isInt(from) || from == "time" {
+			abort(n, "byte() of %s", from)
+		}
+		if from == "byte" {
+			return s, "byte"
+		}
+		return "(" + paren(s) + " mod 256)", "byte"
+	}
+	if fn == "append" && len(n.Args) == 2 && !n.Ellipsis.IsValid() {
+		d, td := x.expr(n.Args[0])
+		e, te := x.expr(n.Args[1])
+		if td != "bytes" || (te != "byte" && te != "untyped") {
+			abort(n, "append(%s, %s)", td, te)
+		}
+		return "(app " + paren(d) + " (cons " + paren(e) + " nil))", "bytes"
+	}
+	if c, ok := x.t.Calls[fn]; ok {
+		var args []string
+		for _, a := range n.Args {
+			s, _ := x.expr(a)
+			args = append(args, paren(s))
+		}
+		return "(" + c.Coq + " " + strings.Join(args, " ") + ")", c.Ty
+	}
 	if to, ok := conv[fn]; ok && len(n.Args) == 1 {
 		s, from := x.expr(n.Args[0])
 		switch {
-		case from == "untyped" || from == to:
+		case from == "untyped" || from == to || from == "byte":
 			return s, to
 		case signed(from) && signed(to):
 			return s, to // all signed kinds are 64-bit here
@@ -922,6 +962,18 @@ func (x *tr) assignRhs(n *ast.AssignStmt, cur, curTy string) (string, string) {
 	}
 	ops := map[token.Token]token.Token{token.ADD_ASSIGN: token.ADD, token.SUB_ASSIGN: token.SUB,
 		token.MUL_ASSIGN: token.MUL, token.QUO_ASSIGN: token.QUO, token.REM_ASSIGN: token.REM}
+	if n.Tok == token.AND_ASSIGN || n.Tok == token.OR_ASSIGN {
+		if !isInt(curTy) || curTy == "time" {
+			abort(n, "bitwise assignment on %s", curTy)
+		}
+		r, rty := x.expr(n.Rhs[0])
+		unifyAssign(n, curTy, rty)
+		f := "Z.land"
+		if n.Tok == token.OR_ASSIGN {
+			f = "Z.lor"
+		}
+		return "(" + f + " " + paren(cur) + " " + paren(r) + ")", curTy
+	}
 	if n.Tok == token.SHL_ASSIGN || n.Tok == token.SHR_ASSIGN {
 		// x <<= k / x >>= k: the shift count's type does not take part in the result type
 		if !isInt(curTy) || curTy == "time" {
@@ -1023,6 +1075,8 @@ func coqTy(ty string) string {
 		return "bool"
 	case strings.HasPrefix(ty, "opt "):
 		return "option " + coqTy(strings.TrimPrefix(ty, "opt "))
+	case ty == "bytes":
+		return "list Z"
 	}
 	return "Z"
 }
